@@ -274,8 +274,9 @@ func (e *Equation) Append(buf []byte, parens bool) []byte {
 			}
 		default:
 			if e.left != nil {
-				// A ! as left operand would capture the operator when read back.
-				buf = e.left.appendOperand(buf, e.left.o != nil && (e.left.o.prec >= e.o.prec || e.left.o.code == not.code))
+				// A ! at the end of the left operand would capture the operator
+				// when read back.
+				buf = e.left.appendOperand(buf, e.left.o != nil && (e.left.o.prec >= e.o.prec || e.left.endsWithNot()))
 			}
 			buf = append(buf, ' ')
 			buf = append(buf, e.o.name...)
@@ -291,6 +292,21 @@ func (e *Equation) Append(buf []byte, parens bool) []byte {
 		buf = append(buf, ')')
 	}
 	return buf
+}
+
+// endsWithNot returns true if the text of the equation ends with a ! applied
+// to an operand that is not closed by a parenthesis.
+func (e *Equation) endsWithNot() bool {
+	if e.o == nil {
+		return false
+	}
+	switch e.o.code {
+	case not.code:
+		return true
+	case get.code, length.code, count.code, match.code, search.code, group.code:
+		return false
+	}
+	return e.right != nil && e.right.o != nil && e.right.o.prec < e.o.prec && e.right.endsWithNot()
 }
 
 // appendOperand appends the equation as an operand, with parenthesis if asked
@@ -315,7 +331,7 @@ func (e *Equation) appendValue(buf []byte, v any) []byte {
 	case int64:
 		buf = append(buf, strconv.FormatInt(tv, 10)...)
 	case float64:
-		buf = append(buf, strconv.FormatFloat(tv, 'g', -1, 64)...)
+		buf = appendFloat(buf, tv)
 	case bool:
 		if tv {
 			buf = append(buf, "true"...)
@@ -419,4 +435,18 @@ func reduceGroups(e *Equation, po *op) *Equation {
 	e.right = reduceGroups(e.right, e.o)
 
 	return e
+}
+
+// appendFloat appends a float so that it is read back as a float and not as
+// an integer.
+func appendFloat(buf []byte, f float64) []byte {
+	start := len(buf)
+	buf = strconv.AppendFloat(buf, f, 'g', -1, 64)
+	for _, b := range buf[start:] {
+		switch b {
+		case '.', 'e', 'E', 'N', 'I': // has a fraction or exponent or is NaN or Inf
+			return buf
+		}
+	}
+	return append(buf, '.', '0')
 }
